@@ -75,15 +75,17 @@ theorem C10_pick_method (t : Tbl) (hw : WFU t) (hv : VarsOK t) (u : Int) (hm : t
   obtain ⟨L, hL, h1, h2⟩ := C10_pick_spec t hw hv u hm care
   exact ⟨L, hL, by simp [pickOp, hL], h1, h2⟩
 
-/-- C08 / C11 (`dd._copy.copy_bdd(u, target)` between two `dd.autoref` managers, reordering not
-enabled in the target, the variables of the support of `u` declared there): the target keeps its
-invariant with the count equation — every temporary `Function` the recursion created is gone,
-exactly one new handle holds the result — and every `Function` alive in the target keeps its node
-and its meaning. -/
-theorem C08_copy_bdd_public (a src : AMgr) {offS : Bool} (hsrc : AInv offS src) (hu h : Nat)
-    (hpre : ∀ u, (nodeOwn hu src).1 = .ok u → CopyPreA src.m.tbl u a.m.tbl) :
-    AKeepsAt true a h (aXCopyTo src hu h) :=
-  aXCopyTo_keepsAtOff a src hsrc hu h hpre
+/-- C08 / C11 (`dd._copy.copy_bdd(u, target)` between two `dd.autoref` managers — the model
+`DD.aXCopyRun` runs the recursion as the code does, every intermediate result a `Function`, in the
+target and in the source): the target in ANY mode (dynamic reordering enabled or not; enabled, it
+may fire inside `target.var` / `target.ite` in the middle of the recursion), ANY arguments, whether
+the call returns or raises: the target keeps its invariant with the count equation — every
+temporary `Function` the recursion created is gone, exactly one new handle holds the result — and
+every `Function` alive in the target keeps its node and its meaning.  (The source: `C08_xcopy_total`,
+DDProps/C08XCopy.lean; the value: `C08_xcopy_value`.) -/
+theorem C08_copy_bdd_public {off : Bool} (a src : AMgr) {offS : Bool} (hsrc : AInv offS src)
+    (hu h : Nat) : AKeepsAt off a h (aXCopyTo src hu h) :=
+  aXCopyTo_keepsAll a src hsrc hu h
 
 /-! ## non-vacuity -/
 
